@@ -11,6 +11,7 @@ import BezierVerif.Gen.Roots
 import BezierVerif.Gen.Curv
 import BezierVerif.Gen.Dist
 import BezierVerif.Gen.Length
+import BezierVerif.Gen.Lookup
 
 namespace Driver
 
@@ -51,6 +52,7 @@ def genDispatch (tbl : FnTable) (name : String) (args : List ℚ) : Option (List
   <|> (Gen.dispatchCurv tbl name args)
   <|> (Gen.dispatchDist tbl name args)
   <|> (Gen.dispatchLength tbl name args)
+  <|> (Gen.dispatchLookup tbl name args)
 
 def words (s : String) : List String := (s.splitOn " ").filter (· ≠ "")
 
